@@ -28,6 +28,7 @@ def cell_list(tier):
             dict(target="halfgauss_hard", kernel="tpcn", resample="mult", clustering=False),
             dict(target="vonmises_periodic", kernel="rwm", resample="syst", clustering=False),
             dict(target="halfgauss_reflective", kernel="tpcn", resample="mult", clustering=False),
+            dict(target="halfgauss_reflective", kernel="rwm", resample="syst", clustering=False),
             dict(target="gauss", kernel="tpcn", resample="syst", clustering=False, arm="crash_resume"),
             dict(target="gauss", kernel="rwm", resample="mult", clustering=False, arm="pool"),
             dict(target="gauss", kernel="rwm", resample="syst", clustering=False, arm="resume_reconfig"),
